@@ -906,17 +906,18 @@ func (C07) Meta() core.Meta {
 			"panic; T2 watchdog + no Read after an error; T3 (unedited GenBank streams) every record returned equals the intact stream's record and Err()==nil implies all complete " +
 			"records were returned and the cut sits on a record boundary, and a delivered reader error never ends in Err()==nil; T4 (mode C) accepted implies declared == actual == " +
 			"returned length; T5 outcome independent of the chunk schedule; T6 the same stream scanned twice in one process gives the same outcome; T7 input x4 allocates at most x9. A case is one faulted scan or string call; it is non-trivial when its state key is new.",
-		StateRule:   "distinct (format, fault kind, last edit kind, top-level field in which the fault landed, chunk class, outcome {panic, error, clean, clean-nothing}) and (string function, outcome)",
-		Assumptions: []string{"(0,nil) reads are not injected: pars (a dependency) spins on them", "time proportional to the input is decided only as 'no hang within the watchdog'", "FASTA has no end marker: T3 is applied to GenBank streams only"},
-		Real:        []string{"seqio.NewAutoScanner, GenBankParser and all sub-parsers, FastaParser, INSDCTableParser, QualifierParser", "gts.AsLocation/AsLocator/AsModifier/Selector/AsMolecule/AsTopology, seqio.AsDate", "pars"},
-		Stub:        []string{"the reader argument (simpipe: chunk schedule, EOF/EIO at a chosen offset, data+error in one Read)", "process boundary"},
-		NotDecided:  []string{"mode D is seeded input mutation riding in the harness, not simulation (no schedule or fault in a string)"},
+		StateRule:       "distinct (format, fault kind, last edit kind, top-level field in which the fault landed, chunk class, outcome {panic, error, clean, clean-nothing}) and (string function, outcome)",
+		Assumptions:     []string{"(0,nil) reads are not injected: pars (a dependency) spins on them", "time proportional to the input is decided only as 'no hang within the watchdog'", "FASTA has no end marker: T3 is applied to GenBank streams only"},
+		Real:            []string{"seqio.NewAutoScanner, GenBankParser and all sub-parsers, FastaParser, INSDCTableParser, QualifierParser", "gts.AsLocation/AsLocator/AsModifier/Selector/AsMolecule/AsTopology, seqio.AsDate", "pars"},
+		Stub:            []string{"the reader argument (simpipe: chunk schedule, EOF/EIO at a chosen offset, data+error in one Read)", "process boundary"},
+		HangIsViolation: true,
+		NotDecided:      []string{"mode D is seeded input mutation riding in the harness, not simulation (no schedule or fault in a string)"},
 	}
 }
 
 func (C07) Runs(tier string) int {
 	if tier == "thorough" {
-		return 40000
+		return 16000
 	}
 	return 1200
 }
